@@ -474,6 +474,20 @@ class ExecS(Exec):
                 self.oblige(f"ghost_assert.{lab}", "ghost", st, g, s)
                 st.pc.append(g)
                 return [Outcome("normal", st)]
+            if f == "__define__":
+                nm = s.value.args[0].value
+                v = self.ev(s.value.args[1], st, spec=True)
+                if isinstance(v, CArr):
+                    v = v.arr
+                if isinstance(v, bool):
+                    v = z3.BoolVal(v)
+                const = z3.Const(nm, v.sort())
+                if nm in self.cx.__dict__.setdefault("_defined", set()):
+                    raise AttachError(f"ghost constant {nm} defined twice")
+                self.cx._defined.add(nm)
+                st.pc.append(const == v)
+                st.env[nm] = const
+                return [Outcome("normal", st)]
             if f == "__ginc__":
                 nm = "$" + s.value.args[0].value
                 st.env[nm] = st.env.get(nm, z3.IntVal(0)) + 1
@@ -709,12 +723,14 @@ class ExecS(Exec):
                     continue
                 if cur is None:
                     raise AttachError(f"{self.cx.fn}: `{v}` is None before loop {no} and assigned inside it: declare its type in local_types")
-                if isinstance(cur, CArr) and cur.name not in stored and not self.rebinds(s.body, v):
-                    continue
+                if isinstance(cur, CArr) and not self.rebinds(s.body, v):
+                    continue        # pointer not re-assigned; contents (if stored to) are havocked below
                 fields = paths.get(v)
-                if fields is not None and isinstance(cur, ObjV) and all(f in cur.fields for f in fields):
+                if fields is not None and isinstance(cur, ObjV):
                     nf = dict(cur.fields)
                     for f in fields:
+                        if f not in cur.fields:
+                            continue
                         nf[f] = fresh_like(cur.fields[f], f"{v}.{f}")
                         h.pc += shape_invariants(nf[f])
                     h.env[v] = ObjV(cur.cls, nf)
